@@ -10,26 +10,26 @@ From Emitter Require Import Lib.Base Model.MsgCodec Model.Channel Model.Key Mode
    the connection's counted subscriptions - ordinary, presence-change and link-created ones all live
    in the same counters - leave the index, nobody else's entry moves, and one 'unsubscribe'
    notification per subscription is queued, in the order the subscriptions were made *)
-Theorem C08_close_removes_exactly_its_subscriptions : forall {I} (X : ixops I) abs inv, IxSpec X abs inv ->
+Theorem C08_close_removes_exactly_its_subscriptions : forall {I} (X : ixops I) abs inv okf, IxSpec X abs inv okf ->
   forall e (b : @broker I) i c,
   inv (b_trie b) -> get_conn (b_conns b) (N.to_nat i) = Some c -> NoDup (map k_ssid (cn_ctrs c)) ->
   let r := close_conn X e b i c in
   get_conn (b_conns r) (N.to_nat i) = None
   /\ (forall p, In p (abs (b_trie r)) <-> In p (abs (b_trie b)) /\ forall k, In k (cn_ctrs c) -> p <> (k_ssid k, cn_sub c))
   /\ b_queue r = b_queue b ++ map (fun k => Notif false (0 :: presenceW :: k_ssid k) (k_chan k) i (cn_user c)) (cn_ctrs c).
-Proof. intros I X abs inv HS. exact (close_cleans X abs inv HS). Qed.
+Proof. intros I X abs inv okf HS. exact (close_cleans X abs inv okf HS). Qed.
 Print Assumptions C08_close_removes_exactly_its_subscriptions.
 
 (* with bookkeeping that covers the index (what F1 broke: two filters sharing one counter), nothing
    of the connection is left and every other subscriber's entries are untouched *)
-Theorem C08_nothing_left_behind : forall {I} (X : ixops I) abs inv, IxSpec X abs inv ->
+Theorem C08_nothing_left_behind : forall {I} (X : ixops I) abs inv okf, IxSpec X abs inv okf ->
   forall e (b : @broker I) i c,
   inv (b_trie b) -> get_conn (b_conns b) (N.to_nat i) = Some c -> NoDup (map k_ssid (cn_ctrs c)) ->
   (forall f, In (f, cn_sub c) (abs (b_trie b)) -> has_ctr c f = true) ->
   let r := close_conn X e b i c in
   (forall f, ~ In (f, cn_sub c) (abs (b_trie r)))
   /\ (forall f s, s <> cn_sub c -> (In (f, s) (abs (b_trie r)) <-> In (f, s) (abs (b_trie b)))).
-Proof. intros I X abs inv HS. exact (close_leaves_nothing X abs inv HS). Qed.
+Proof. intros I X abs inv okf HS. exact (close_leaves_nothing X abs inv okf HS). Qed.
 Print Assumptions C08_nothing_left_behind.
 
 (* the bookkeeping invariant is kept by subscribing: a filter is added to the counters exactly when
@@ -43,7 +43,7 @@ Print Assumptions C08_bookkeeping_follows_index.
 
 (* the last will is published exactly once, to the current subscribers of its channel, iff it was
    supplied with a key that allows publishing there *)
-Theorem C08_last_will_once : forall {I} (X : ixops I) abs inv, IxSpec X abs inv ->
+Theorem C08_last_will_once : forall {I} (X : ixops I) abs inv okf, IxSpec X abs inv okf ->
   forall e (b : @broker I) c retain topic msg k,
   inv (b_trie b) -> cn_will c = Some (Will retain topic msg) ->
   let ch := parse_channel topic in
@@ -51,7 +51,7 @@ Theorem C08_last_will_once : forall {I} (X : ixops I) abs inv, IxSpec X abs inv 
   exists tg, b_out (on_last_will X e b c) = b_out b ++ map (fun i => (i, PMsg (c_chan ch) msg)) tg /\ NoDup tg
     /\ forall i, In i tg <-> exists s f, In (f, s) (abs (b_trie b)) /\ matches (e_mqtt e) f (key_contract k :: c_query ch) = true
                                        /\ conn_of_sub (b_conns b) s 0 = Some i.
-Proof. intros I X abs inv HS. exact (last_will_once X abs inv HS). Qed.
+Proof. intros I X abs inv okf HS. exact (last_will_once X abs inv okf HS). Qed.
 Print Assumptions C08_last_will_once.
 
 Theorem C08_last_will_silent_otherwise : forall {I} (X : ixops I) e (b : @broker I) c,
